@@ -480,6 +480,16 @@ fn check_case(ctx: &Ctx, scratch: &Path, case: &CaseSpec, out: &mut Partial) {
         .map(|l| l.trim_end_matches('/').to_string())
         .filter(|d| !after.empty_dirs.contains(d))
         .collect();
+    let cache_hits_before = if case.domain == Domain::Cache {
+        let p = case_dir.join("hb");
+        vcore::util::copy_tree(&rec.snaps.join("0"), &p).expect("copy state");
+        let h = cache_hits_on(ctx, &p, &hist_ops, &case.op);
+        rm_tree(&p);
+        out.count("vac:cache_ranges_retrievable_before_the_interrupted_put", h.len() as u64);
+        h
+    } else {
+        BTreeSet::new()
+    };
     let restart = Restart {
         ctx,
         domain: case.domain,
@@ -487,6 +497,7 @@ fn check_case(ctx: &Ctx, scratch: &Path, case: &CaseSpec, out: &mut Partial) {
         op: &case.op,
         before: &before,
         after: &after,
+        cache_hits_before: &cache_hits_before,
     };
     let mut st = RestartStats::default();
     let is_cons = matches!(case.op, Op::Cons(_));
